@@ -314,6 +314,8 @@ func (t *Task) runWithLocking() {
 
 	// enter executing state
 	t.executing = true
+	// reset executeAt to detect if task set next execution itself
+	t.executeAt = time.Time{}
 	verifTaskEnd("tasks:run:start", t)
 	t.lock.Unlock()
 	verifEvent("yield:tasks:run-checked", t)
@@ -399,9 +401,6 @@ func (t *Task) executeWithLocking() {
 
 		t.lock.Unlock()
 	}()
-
-	// reset executeAt to detect if task set next execution itself
-	t.executeAt = time.Time{}
 
 	// run
 	err := t.taskFn(t.ctx, t)
